@@ -45,13 +45,23 @@ let eval_line (arg : string) : string =
   let parsed = List.map (fun s -> match String.split_on_char ':' s with
       | [name; kind; id; v] -> (chars_of_string name, kind, int_of_string id, v)
       | _ -> failwith "env") entries in
+  (* names may be qualified (`o.x`); kinds: a / b = an arithmetic / boolean network variable with the given value,
+     c = an arithmetic constant `n/d` (what `real x = n / d;` binds x to), k = a boolean constant *)
+  let const_of (v : string) : value option =
+    match String.split_on_char '/' v with
+    | [n; d] ->
+      let neg = String.length n > 0 && n.[0] = '-' in
+      let n' = if neg then String.sub n 1 (String.length n - 1) else n in
+      let e = ENary (NDiv, [EInt (chars_of_string n'); EInt (chars_of_string d)]) in
+      ev (fun _ -> None) (if neg then EUn (UMinus, e) else e)
+    | _ -> None in
   let rho (q : char list list) : value option =
-    match q with
-    | [x] ->
-      (match List.find_opt (fun (n, _, _, _) -> n = x) parsed with
-       | Some (_, "a", id, _) -> Some (VArith (lin_ctor_var (n_of_int id) rat_ONE))
-       | Some (_, "b", id, _) -> Some (VBool (FVar (n_of_int id)))
-       | _ -> None)
+    let name = String.concat "." (List.map string_of_chars q) in
+    match List.find_opt (fun (n, _, _, _) -> string_of_chars n = name) parsed with
+    | Some (_, "a", id, _) -> Some (VArith (lin_ctor_var (n_of_int id) rat_ONE))
+    | Some (_, "b", id, _) -> Some (VBool (FVar (n_of_int id)))
+    | Some (_, "c", _, v) -> const_of v
+    | Some (_, "k", _, v) -> Some (VBool (FConst (v = "1")))
     | _ -> None in
   let av (v : n) : q =
     match List.find_opt (fun (_, k, id, _) -> k = "a" && n_of_int id = v) parsed with
